@@ -734,3 +734,101 @@ func BadFontMatrixFont(t *sim.Tape) []byte {
 	}
 	return out
 }
+
+// FractionalWidthFont returns a no-eexec font file without .notdef and without
+// space whose glyphs have non-integer advance widths (`sbx num den div hsbw`),
+// which only a foreign producer writes.
+func FractionalWidthFont(t *sim.Tape) []byte {
+	f := GenFont(t, 2)
+	delete(f.Glyphs, ".notdef")
+	delete(f.Glyphs, "space")
+	n := 5 + t.Choose(40)
+	var names []string
+	for i := 0; i < n; i++ {
+		name := fmt.Sprintf("fw%c%d", 'a'+byte(i%26), i)
+		f.Glyphs[name] = &type1.Glyph{WidthX: 500}
+		names = append(names, name)
+	}
+	if f.Encoding != nil {
+		for i, e := range f.Encoding {
+			if e == "space" {
+				f.Encoding[i] = ".notdef"
+			}
+		}
+	}
+	file, err := FontFile(f, type1.FormatNoEExec)
+	if err != nil {
+		return nil
+	}
+	for _, name := range names {
+		var cs []byte
+		cs = append(cs, t1Int(0)...)
+		cs = append(cs, t1Int(1000+t.Choose(9000))...)
+		cs = append(cs, t1Int(3+2*t.Choose(50))...)
+		cs = append(cs, 12, 12) // div
+		cs = append(cs, 13)     // hsbw
+		cs = append(cs, t1Int(10)...)
+		cs = append(cs, t1Int(20)...)
+		cs = append(cs, 21) // rmoveto
+		cs = append(cs, t1Int(100)...)
+		cs = append(cs, 6)     // hlineto
+		cs = append(cs, 9, 14) // closepath endchar
+		file = replaceCharstring(file, name, csObfuscate(cs))
+	}
+	return file
+}
+
+// SubrFontPair returns two no-eexec font files that use charstring subroutines
+// (the library's writer never does).  The first is an ordinary font whose glyphs
+// call the subroutines; the second declares `/lenIV 0` and carries subroutine
+// entries with the very same bytes, which under its lenIV mean something else.
+func SubrFontPair(t *sim.Tape) (ordinary, other []byte) {
+	mk := func(lenIV int) []byte {
+		f := GenFont(t, 2)
+		f.Glyphs["usesubr"] = &type1.Glyph{WidthX: 600}
+		f.Glyphs["usesubr2"] = &type1.Glyph{WidthX: 610}
+		file, err := FontFile(f, type1.FormatNoEExec)
+		if err != nil {
+			return nil
+		}
+		// subroutines: "100 0 rlineto return" and "0 50 rlineto return"
+		sub0 := append(append(append(t1Int(100), t1Int(0)...), 5), 11)
+		sub1 := append(append(append(t1Int(0), t1Int(50)...), 5), 11)
+		s0, s1 := csObfuscate(sub0), csObfuscate(sub1) // always the lenIV-4 form: the bytes are shared
+		subrs := fmt.Sprintf("/Subrs 2 array\ndup 0 %d RD ", len(s0)) + string(s0) + fmt.Sprintf(" NP\ndup 1 %d RD ", len(s1)) + string(s1) + " NP\n"
+		if lenIV != 4 {
+			subrs = fmt.Sprintf("/lenIV %d def\n", lenIV) + subrs
+		}
+		file = bytes.Replace(file, []byte("/Subrs 0 array\n"), []byte(subrs), 1)
+		// glyphs: 0 w hsbw 10 10 rmoveto 0 callsubr 1 callsubr closepath endchar
+		var cs []byte
+		cs = append(cs, t1Int(0)...)
+		cs = append(cs, t1Int(600)...)
+		cs = append(cs, 13)
+		cs = append(cs, t1Int(10)...)
+		cs = append(cs, t1Int(10)...)
+		cs = append(cs, 21)
+		cs = append(cs, t1Int(0)...)
+		cs = append(cs, 10) // callsubr
+		cs = append(cs, t1Int(1)...)
+		cs = append(cs, 10)
+		cs = append(cs, 9, 14)
+		enc := csObfuscate(cs)
+		if lenIV == 0 {
+			// lenIV 0: no lead bytes
+			r := uint16(4330)
+			enc = make([]byte, len(cs))
+			for i, p := range cs {
+				c := p ^ byte(r>>8)
+				r = (uint16(c)+r)*52845 + 22719
+				enc[i] = c
+			}
+			// the other glyphs of this file were written with four lead bytes;
+			// under lenIV 0 they decode to something else, which is all right
+		}
+		file = replaceCharstring(file, "usesubr", enc)
+		file = replaceCharstring(file, "usesubr2", enc)
+		return file
+	}
+	return mk(4), mk(0)
+}
